@@ -341,6 +341,63 @@ def _block_after(src, header_re, what):
     raise E.ExtractError('unbalanced braces: ' + what)
 
 
+_MW = re.compile(r'lp\.row\[(currentRule|currentWeight)\]=([^;]+);')
+_MP = re.compile(r'lp\.pushRow\(LP::Constraint::Equal,([^;]+)\);')
+
+def _mval(tok, what):
+    t = tok
+    if t in ('-f.values[sId]',):
+        return '.negVal'
+    if t in ('+discount*f.values(sId,aId)', 'discount*f.values(sId,aId)'):
+        return '.discVal'
+    if t in ('f.values(sId,aId)',):
+        return '.val'
+    if re.fullmatch(r'[+-]?[0-9.]+', t):
+        return '(.lit %s)' % E.lean_rat(E.lit_to_rat(t))
+    raise E.ExtractError('%s: unknown value expression %r' % (what, tok))
+
+def mdp_loop_body(flat, guard, tail, what):
+    if not flat.startswith(guard):
+        raise E.ExtractError(what + ': the entry loop does not start with the zero-skip guard ' + guard)
+    if not flat.endswith(tail):
+        raise E.ExtractError(what + ': the entry loop does not end with ' + tail)
+    flat = flat[len(guard):len(flat) - len(tail)]
+    out, i = [], 0
+    while i < len(flat):
+        rest = flat[i:]
+        if rest.startswith('lp.addColumn();'):
+            out.append('.addColumn'); i += len('lp.addColumn();'); continue
+        if rest.startswith('lp.row.setZero();'):
+            out.append('.setZero'); i += len('lp.row.setZero();'); continue
+        m = _MP.match(rest)
+        if m:
+            out.append('.pushEq ' + _mval(m.group(1), what)); i += m.end(); continue
+        m = _MW.match(rest)
+        if m:
+            out.append('.write %s %s' % ('.rule' if m.group(1) == 'currentRule' else '.weight', _mval(m.group(2), what))); i += m.end(); continue
+        raise E.ExtractError('%s: statement of unknown shape: %s' % (what, rest[:80]))
+    return out
+
+def mdp_setup_bodies():
+    src = E.strip_comments(E.read(MLP))
+    body, _ = _body(src, r'std::optional<Vector>\s+LinearProgramming::solveLP\s*\([^)]*\)\s*const\s*\{', MLP + ' solveLP')
+    res = {}
+    outH, after = _block_after(body, r'for\s*\(\s*const\s+auto\s*&\s*f\s*:\s*h\.bases\s*\)\s*\{', MLP + ' loop over h.bases')
+    inH, _ = _block_after(outH, r'for\s*\(\s*int\s+sId\s*=\s*0\s*;\s*sId\s*<\s*f\.values\.size\(\)\s*;\s*\+\+sId\s*\)\s*\{', MLP + ' entry loop of h')
+    res['mdpSetupHBody'] = mdp_loop_body(re.sub(r'\s+', '', inH), 'if(checkEqualSmall(f.values[sId],0.0))continue;',
+                                         'newFactor->getData().emplace_back(sId,currentRule);currentRule+=1;', MLP + ' entry loop of h')
+    for nm, hdr in (('mdpSetupGBody', r'for\s*\(\s*const\s+auto\s*&\s*f\s*:\s*g\.bases\s*\)\s*\{'), ('mdpSetupRBody', r'for\s*\(\s*const\s+auto\s*&\s*f\s*:\s*R\.bases\s*\)\s*\{')):
+        outer, after = _block_after(after, hdr, MLP + ' ' + nm)
+        flat_outer = re.sub(r'\s+', '', outer)
+        if not flat_outer.startswith('autonewFactor=graph.getFactor(join(S.size(),f.tag,f.actionTag));autoaMult=1;for(autoid:f.tag)aMult*=S[id];for(intsId=0;sId<f.values.rows();++sId){for(intaId=0;aId<f.values.cols();++aId){'):
+            raise E.ExtractError(MLP + ': ' + nm + ': unknown prologue (join tag, aMult = prod S[id], sId-major double loop)')
+        l1, _ = _block_after(outer, r'for\s*\(\s*int\s+sId\s*=\s*0\s*;\s*sId\s*<\s*f\.values\.rows\(\)\s*;\s*\+\+sId\s*\)\s*\{', MLP + ' ' + nm + ' sId loop')
+        l2, _ = _block_after(l1, r'for\s*\(\s*int\s+aId\s*=\s*0\s*;\s*aId\s*<\s*f\.values\.cols\(\)\s*;\s*\+\+aId\s*\)\s*\{', MLP + ' ' + nm + ' aId loop')
+        res[nm] = mdp_loop_body(re.sub(r'\s+', '', l2), 'if(checkEqualSmall(f.values(sId,aId),0.0))continue;',
+                                'newFactor->getData().emplace_back(sId+aMult*aId,currentRule);currentRule+=1;', MLP + ' ' + nm)
+    return res
+
+
 def gen_c15setup():
     src = E.strip_comments(E.read(FLP))
     opbody, _ = _body(src, r'std::optional<Vector>\s+FactoredLP::operator\(\)\s*\([^)]*\)\s*\{', FLP + ' FactoredLP::operator()')
@@ -369,7 +426,12 @@ def gen_c15setup():
            '   `if (addConstantBasis) lp.row[constBasisId] = 0.0` after the loop over C. -/',
            'import AITB.Model.FLPBuf', 'namespace AITB.Gen', 'open AITB.FLP', '',
            'def flpSetupCBody : List SStmt := [%s]' % ', '.join(bodyC), '',
-           'def flpSetupBBody : List SStmt := [%s]' % ', '.join(bodyB), '', 'end AITB.Gen', '']
+           'def flpSetupBBody : List SStmt := [%s]' % ', '.join(bodyB), '']
+    out.append('/-- the three entry loops of LinearProgramming::solveLP (after the zero-skip guard, before `emplace_back(index, currentRule); currentRule += 1`;')
+    out.append('    the translator also checks the guard, the tail, the join tag and `aMult = prod S[id]` with the sId-major double loop) -/')
+    for nm, st in mdp_setup_bodies().items():
+        out.append('def %s : List MStmt := [%s]' % (nm, ', '.join(st)))
+    out += ['', 'end AITB.Gen', '']
     E.write_if_changed('C15Setup', '\n'.join(out))
 
 
